@@ -1,0 +1,22 @@
+//go:build verif
+
+package persisters
+
+// Machine-checked contracts (comment-only; compiled to nothing). Checked by /verif/bin/stfsvc.
+
+//@ func (*MetadataPersister).UpsertHeader
+//@   property C07
+//@   modifies *, rowWrites
+//@   ensures [oblivious] err == nil ==> rowWrites > old(rowWrites)
+//@   at call Update#1 assert [writes-the-incoming-row] hdr.Deleted == old(dbhdr.Deleted) && hdr.Record == old(dbhdr.Record) && hdr.Block == old(dbhdr.Block) && hdr.Lastknownrecord == old(dbhdr.Lastknownrecord) && hdr.Lastknownblock == old(dbhdr.Lastknownblock) && hdr.Size == old(dbhdr.Size) && hdr.Typeflag == old(dbhdr.Typeflag) && hdr.Mode == old(dbhdr.Mode) && hdr.Linkname == old(dbhdr.Linkname) && hdr.Paxrecords == old(dbhdr.Paxrecords)
+//@   at call Update#1 assert [name-kept-when-initializing] initializing ==> hdr.Name == old(dbhdr.Name)
+
+//@ func (*MetadataPersister).DeleteHeader
+//@   property C07
+//@   modifies *, rowWrites
+//@   at call Update#1 assert [tombstone-keeps-row] hdr.Deleted == 1 && hdr.Lastknownrecord == lastknownrecord && hdr.Lastknownblock == lastknownblock
+
+//@ func (*MetadataPersister).GetHeaderDirectChildren
+//@   property C13
+//@   modifies *
+//@   ensures [count-limit] limit > 0 && result1 == nil ==> len(result0) <= limit
